@@ -721,8 +721,8 @@ class Flattener(object):
         return out
 
     def lower_comprehensions(self, stmts):
-        """x = [elt for t in it if c]  ==>  x = []; for t in it: if c: x.append(elt)    (exact; only when the
-        comprehension calls an inlinable statement helper, so that the helper can then be looked through)"""
+        """x = [elt for t in it if c]  ==>  x = []; for t in it: if c: x.append(elt)    (exact; done when the
+        comprehension filters its input or calls an inlinable statement helper, so that the condition becomes a branch)"""
         out = []
         for s in stmts:
             for field in ('body', 'orelse', 'finalbody'):
@@ -734,7 +734,7 @@ class Flattener(object):
                     h.body = self.lower_comprehensions(h.body)
             if isinstance(s, ast.Assign) and len(s.targets) == 1 and isinstance(s.targets[0], ast.Name) and \
                     isinstance(s.value, ast.ListComp) and len(s.value.generators) == 1 and \
-                    self.statement_helper_in(s.value, self.fi.cls, [self.fi.key]) and \
+                    (self.statement_helper_in(s.value, self.fi.cls, [self.fi.key]) or s.value.generators[0].ifs) and \
                     s.targets[0].id not in {n.id for n in ast.walk(s.value) if isinstance(n, ast.Name)}:
                 gen = s.value.generators[0]
                 name = s.targets[0].id
